@@ -77,6 +77,7 @@ func cmdCheck(args []string) int {
 	fs := flag.NewFlagSet("check", flag.ExitOnError)
 	prop := fs.String("property", "", "property id")
 	tier := fs.String("tier", os.Getenv("VERIF_TIER"), "quick|thorough")
+	claimTimeout := fs.Int("ct", 20, "per-obligation timeout in claim mode (s)")
 	claimMode := fs.Bool("claim", false, "rewrite the claim list from this run (unchanged tree only)")
 	noEvidence := fs.Bool("noevidence", false, "do not write evidence / replay files (selftest runs against scratch copies)")
 	fs.Parse(args)
@@ -108,6 +109,7 @@ func cmdCheck(args []string) int {
 	}
 	if *claimMode {
 		seeds = []int{seed, seed + 1, seed + 2}
+		timeout = *claimTimeout // an obligation is only claimed if it discharges well under the quick timeout
 	}
 	claimed := map[string]bool{}
 	for _, o := range claims.Obligations {
